@@ -167,14 +167,17 @@ impl Prop for C08 {
                     }
                 }
             }
-            // Imsaak is derived from Fajr by its own pass; only the comparable situation is asserted
-            if let (Ok(g), Ok(cv)) = (got[&Prayer::Imsaak], conv[&Prayer::Imsaak]) {
-                if !g.extreme && g != cv && got[&Prayer::Fajr] == conv[&Prayer::Fajr] && !gen::policy_consumes_intervals(pol) {
-                    return Err(Failure::new(
-                        format!("unflagged-differs-from-conventional:Imsaak:{}", gen::POLICY_NAMES[pol as usize]),
-                        "unflagged Imsaak equals the conventional Imsaak when Fajr is conventional",
-                        ctx(),
-                    ));
+            // Imsaak: an unflagged Imsaak is the conventional Imsaak (same validity, same time). Not asserted for the
+            // policies that consume the intervals (their conventional reference zeroes what Imsaak is derived from).
+            if !gen::policy_consumes_intervals(pol) {
+                if let Ok(g) = got[&Prayer::Imsaak] {
+                    if !g.extreme && got[&Prayer::Imsaak] != conv[&Prayer::Imsaak] {
+                        return Err(Failure::new(
+                            format!("unflagged-differs-from-conventional:Imsaak:{}", gen::POLICY_NAMES[pol as usize]),
+                            "Imsaak either flagged extreme or equal to the conventional entry",
+                            ctx(),
+                        ));
+                    }
                 }
             }
         }
@@ -205,7 +208,7 @@ impl Prop for C08 {
         vec![
             "conventional reference = same call with ExtremeLatitudeMethod::None; for policies that consume the Fajr/Isha intervals as fallback amounts the reference also zeroes those intervals".into(),
             "an interval-defined Fajr/Isha counts as conventionally valid only if its nominal angle event exists per the oracle with 0.05 deg margin (the library decides validity on the angle event and then re-applies the interval)".into(),
-            "clause (c) is asserted for the six main entries; for Imsaak only when Fajr itself is conventional".into(),
+            "clause (c) is asserted for all seven entries; for Imsaak not under the policies that consume the intervals".into(),
         ]
     }
 }
